@@ -12,9 +12,12 @@ CONSTANTS Buf, Cap, DescA, DescB, MaxFds, HLen
 
 Desc(t) == IF t = "A" THEN DescA ELSE DescB
 Big == 65536
-S(l, v, k, c, t) == [op |-> "send", len |-> l, val |-> v, nfds |-> k, cred |-> c, typ |-> t, rbuf |-> 0, want |-> ""]
-R(b, w)          == [op |-> "recv", len |-> 0, val |-> 0, nfds |-> 0, cred |-> "", typ |-> "", rbuf |-> b, want |-> w]
-RA(b, w)         == [op |-> "recvall", len |-> 0, val |-> 0, nfds |-> 0, cred |-> "", typ |-> "", rbuf |-> b, want |-> w]
+S(l, v, k, c, t) == [op |-> "send", len |-> l, val |-> v, nfds |-> k, cred |-> c, typ |-> t, rbuf |-> 0, want |-> "", free |-> -1]
+\* free = free slots in the receiver's descriptor table during the call (-1: no pressure)
+RF(b, w, f)      == [op |-> "recv", len |-> 0, val |-> 0, nfds |-> 0, cred |-> "", typ |-> "", rbuf |-> b, want |-> w, free |-> f]
+RAF(b, w, f)     == [op |-> "recvall", len |-> 0, val |-> 0, nfds |-> 0, cred |-> "", typ |-> "", rbuf |-> b, want |-> w, free |-> f]
+R(b, w)          == RF(b, w, -1)
+RA(b, w)         == RAF(b, w, -1)
 
 FdsFull  == {0, 1, 2, MaxFds, MaxFds + 1}
 CredFull == {"none", "own", "forged"}
@@ -47,7 +50,23 @@ Hist(layer, Ops, n, fin) ==
 \* the receive of a pair is replaced by recvall so that a pair whose send is refused does not block
 Fix(c) == [c EXCEPT !.ops = <<c.ops[1], [c.ops[2] EXCEPT !.op = "recvall"]>>]
 
+\* ---- receiver short of descriptor slots (RLIMIT_NOFILE): free slots around the number attached
+Frees == {0, 1, 2, MaxFds - 1}
+PressPairs ==
+  { [layer |-> "raw", passcred |-> TRUE, part |-> "press", ops |-> <<S(l, 0, k, c, ""), RAF(Big + 64, "", f)>>] :
+      l \in {1, Buf}, k \in FdsFull, c \in {"none", "forged"}, f \in Frees }
+  \cup UNION { { [layer |-> "gob", passcred |-> TRUE, part |-> "press", ops |-> <<S(0, v, k, "none", t), RAF(0, w, f)>>] :
+      v \in {64, Cap - Desc(t)}, k \in FdsFull, w \in {"M", "X"}, f \in Frees } : t \in {"A", "B"} }
+\* histories: a message refused for lack of slots must not disturb what follows (ledger, gob stream)
+PressOps(layer) == IF layer = "raw"
+                   THEN { S(1, 0, k, "none", "") : k \in {0, 1, 2} } \cup { RF(Big + 64, "", f) : f \in {-1, 1} }
+                   ELSE { S(0, 64, k, "none", t) : k \in {0, 2}, t \in {"A", "B"} } \cup { RF(0, "M", f) : f \in {-1, 1} }
+PressHist(layer) ==
+  { [layer |-> layer, passcred |-> TRUE, part |-> "presshist", ops |-> Append(s, RAF(IF layer = "raw" THEN Big + 64 ELSE 0, IF layer = "raw" THEN "" ELSE "M", f))] :
+      s \in { x \in Seqs(PressOps(layer), HLen) : Valid(layer, x) }, f \in {1, 2} }
+
 Cases ==
+  PressPairs \cup PressHist("raw") \cup PressHist("gob") \cup
   { Fix(c) : c \in Pairs("raw", RawSendFull, RawRecvFull, BOOLEAN) \cup Pairs("gob", GobSendFull, GobRecvFull, {TRUE}) }
   \cup Hist("raw", RawSendRed \cup RawRecvRed, HLen, RA(Big + 64, ""))
   \cup Hist("gob", GobSendRed \cup GobRecvRed, HLen - 1, RA(0, "M"))
